@@ -70,7 +70,7 @@ class Check:
         s.violations = []; s.known_hits = []; s.notes = []; s.bounds = {}; s.assumptions = []; s.models_used = set(); s.opaque = set()
         s.dumps = []; s.solver_s = 0.0; s.engines = []
         s.known = [f for f in known_findings() if f.get('property') == pid]
-        s._replay = None; s.obligations = 0; s.discharged = 0
+        s._replay = None; s.obligations = 0; s.discharged = 0; s.inconclusive = []
         z3.set_param('smt.random_seed', s.seed); z3.set_param('sat.random_seed', s.seed)
     @property
     def quick(s): return s.tier != 'thorough'
@@ -127,6 +127,17 @@ class Check:
         return s.replay().ask(obj)
 
     # ---- results
+    def part(s, name, f, *a, **kw):
+        """run one part of a check; an inconclusive part does not hide violations found by other parts"""
+        s.phase(name)
+        try:
+            return f(*a, **kw)
+        except (Inconclusive, engine.Unmodelled, engine.EngineError) as e:
+            kind = 'unmodelled call' if isinstance(e, engine.Unmodelled) else ('encoding error' if isinstance(e, engine.EngineError) else 'inconclusive')
+            msg = f'{name}: {kind}: {e}'
+            s.inconclusive.append(msg); s.notes.append('INCONCLUSIVE: ' + msg)
+            print(f'INCONCLUSIVE property={s.pid} part={name}: {kind}: {str(e)[:600]}', flush=True)
+            return None
     def phase(s, name):
         now = time.time(); s.notes.append(f'phase {name} starts at +{round(now - s.t0, 1)}s'); sys.stderr.write(f'[{s.pid}] +{round(now - s.t0, 1)}s {name}\n')
     def sample(s, x):
@@ -167,7 +178,7 @@ class Check:
             json.dump(ev, f, indent=1, default=str)
         print(f'[{s.pid}] tier={ev["tier"]} paths={s.states} mir_stmts={s.transitions} obligations={s.discharged}/{s.obligations} '
               f'replayed={s.replayed} known={len(s.known_hits)} violations={len(s.violations)} wall={ev["wall_s"]}s', flush=True)
-        return 1 if s.violations else 0
+        return 1 if s.violations else (2 if s.inconclusive else 0)
 
 def run_check(pid, body):
     chk = Check(pid)
